@@ -243,6 +243,9 @@ func (c *smCase) collect(frameFrom, createdFrom int) {
 		if p := x.panicked.Load(); p != nil {
 			c.monfail("panic", fmt.Sprintf("OpenStreamSync goroutine panicked: %v", p))
 		}
+		if x.gen != c.gen && x.err != smErr0RTT {
+			c.monfail("reset/waiter-outcome", fmt.Sprintf("OpenStreamSync waiter %d was blocked on a map replaced by ResetFor0RTT and returned stream %d / error class %d instead of Err0RTTRejected", x.w, x.id, x.err))
+		}
 		if x.err == 0 {
 			// FIFO: the served waiter must be the earliest still-parked caller of this map
 			pw := c.parkedWaiters(x.uni)
@@ -285,6 +288,9 @@ func (c *smCase) collect(frameFrom, createdFrom int) {
 		c.nwakes++
 		if p := x.panicked.Load(); p != nil {
 			c.monfail("panic", fmt.Sprintf("AcceptStream goroutine panicked: %v", p))
+		}
+		if x.gen != c.gen && x.err != smErr0RTT {
+			c.monfail("reset/waiter-outcome", fmt.Sprintf("AcceptStream caller %d was blocked on a map replaced by ResetFor0RTT and returned stream %d / error class %d instead of Err0RTTRejected", x.w, x.id, x.err))
 		}
 		if x.err == 0 {
 			c.monAccepted(x.uni, x.id)
@@ -430,6 +436,16 @@ func (c *smCase) monAccepted(uni bool, id int64) {
 
 // state monitors, run when the bubble is quiescent
 func (c *smCase) monState() {
+	for _, x := range c.waiters {
+		if x.gen != c.gen {
+			c.monfail("reset/waiter-still-blocked", fmt.Sprintf("OpenStreamSync waiter %d stays blocked on a map replaced by ResetFor0RTT", x.w))
+		}
+	}
+	for _, x := range c.acceptors {
+		if x.gen != c.gen {
+			c.monfail("reset/waiter-still-blocked", fmt.Sprintf("AcceptStream caller %d stays blocked on a map replaced by ResetFor0RTT", x.w))
+		}
+	}
 	for t := 0; t < 2; t++ {
 		in := c.v.SnapIn(t == 1)
 		n := int64(len(in.Streams))
@@ -985,6 +1001,9 @@ func (c *smCase) doOp() {
 			return
 		}
 		x := c.acceptors[r.Intn(len(c.acceptors))]
+		if f != nil {
+			x = c.acceptors[0]
+		}
 		fr, fe, cf := c.ext(func() { x.cancel() })
 		if !x.finished.Load() {
 			c.monfail("cancel/still-blocked", "AcceptStream did not return after its context was cancelled")
@@ -1034,8 +1053,9 @@ func (c *smCase) doOp() {
 		if nu > c.peerMax[1] {
 			c.peerMax[1] = nu
 		}
-		fr, fe, cf := c.ext(func() { v.TransportParams(nb, nu) })
-		c.step(u.App("OTransportParams", u.Z(nb), u.Z(nu)), "RUnit", fr, fmt.Sprintf("tparams(%d,%d)", nb, nu))
+		rsa := r.Bool()
+		fr, fe, cf := c.ext(func() { v.TransportParams(nb, nu, rsa) })
+		c.step(u.App("OTransportParams", u.Z(nb), u.Z(nu), u.B(rsa)), "RUnit", fr, fmt.Sprintf("tparams(%d,%d,%v)", nb, nu, rsa))
 		c.collect(fe, cf)
 		c.monSpuriousBlocked(fr)
 	default:
@@ -1156,7 +1176,9 @@ func (c *smCase) snapOut(s quic.VerifSMOut) string {
 // 0 frame for the next stream the peer may open, 1 frame for the one after it (skips one),
 // 2 AcceptStream, 3 / 4 complete the lowest / highest open peer stream,
 // 5 OpenStream, 6 OpenStreamSync, 7 / 8 cancel the oldest / newest blocked caller,
-// 9 / 10 MAX_STREAMS +1 / +2.
+// 9 / 10 MAX_STREAMS +1 / +2, 11 cancel the oldest blocked AcceptStream caller.
+// At most 2 AcceptStream callers and 2 OpenStreamSync callers are blocked at a time (a symbol
+// that would add a third one is skipped).
 type smScript struct {
 	client bool
 	maxIn  int64
@@ -1197,6 +1219,8 @@ func (c *smCase) resolve(code int) *smForced {
 		return &smForced{k: 80, idx: -1}
 	case 9:
 		return &smForced{k: 88, n: 1}
+	case 11:
+		return &smForced{k: 86}
 	}
 	return &smForced{k: 88, n: 2}
 }
@@ -1240,8 +1264,9 @@ func runSMCase(w *bufio.Writer, r *u.Rng, dist map[string]int, script *smScript)
 		if script == nil && r.Chance(2, 3) { // most connections learn the peer's limits before anything else
 			nb, nu := r.Pick(0, 1, 2, 3, 5), r.Pick(0, 1, 2, 3, 5)
 			c.peerMax = [2]int64{nb, nu}
-			fr, fe, cf := c.ext(func() { c.v.TransportParams(nb, nu) })
-			c.step(u.App("OTransportParams", u.Z(nb), u.Z(nu)), "RUnit", fr, fmt.Sprintf("tparams(%d,%d)", nb, nu))
+			rsa := r.Chance(1, 3)
+			fr, fe, cf := c.ext(func() { c.v.TransportParams(nb, nu, rsa) })
+			c.step(u.App("OTransportParams", u.Z(nb), u.Z(nu), u.B(rsa)), "RUnit", fr, fmt.Sprintf("tparams(%d,%d,%v)", nb, nu, rsa))
 			c.collect(fe, cf)
 		}
 		c.flush()
@@ -1250,6 +1275,9 @@ func runSMCase(w *bufio.Writer, r *u.Rng, dist map[string]int, script *smScript)
 			for _, code := range script.ops {
 				if len(c.failed) != 0 {
 					break
+				}
+				if code == 2 && len(c.acceptors) >= 2 || code == 6 && len(c.waiters) >= 2 {
+					continue
 				}
 				c.forced = c.resolve(code)
 				c.doOp()
@@ -1264,8 +1292,9 @@ func runSMCase(w *bufio.Writer, r *u.Rng, dist map[string]int, script *smScript)
 			c.monCredit()
 			c.flush()
 		}
+		rsaFlag, rsaIDs := c.v.ResetStreamAtSnapshot()
 		final := u.App("SMCase", u.B(c.client), u.Z(c.maxIn[0]), u.Z(c.maxIn[1]), u.List(c.steps),
-			c.snapIn(false), c.snapIn(true), c.snapOut(c.v.SnapOut(false)), c.snapOut(c.v.SnapOut(true)), u.B(c.v.IsReset()))
+			c.snapIn(false), c.snapIn(true), c.snapOut(c.v.SnapOut(false)), c.snapOut(c.v.SnapOut(true)), u.B(c.v.IsReset()), u.B(rsaFlag), u.ZList(rsaIDs))
 		nt := 0
 		if c.nframes > 0 || c.nwakes > 0 {
 			nt = 1
@@ -1295,9 +1324,79 @@ func runSMCase(w *bufio.Writer, r *u.Rng, dist map[string]int, script *smScript)
 	})
 }
 
+// smAcceptLostWakeupProbe: two concurrent AcceptStream callers. Caller A found no stream and is
+// between Unlock and its select (hook: its ctx.Done() is being evaluated) when one frame opens
+// two streams (one wake-up token is buffered, the second send is dropped) and caller B's
+// AcceptStream drains that token and takes the first stream. A then blocks in the select. No
+// lost wake-up means: A must not stay blocked while the second stream is waiting to be accepted.
+func smAcceptLostWakeupProbe(w *bufio.Writer) {
+	reported := false
+	for _, client := range []bool{false, true} {
+		for _, uni := range []bool{false, true} {
+			// j streams opened by one frame, nb other AcceptStream calls before A reaches its select
+			for _, jn := range [][2]int64{{2, 1}, {1, 0}, {1, 1}, {2, 0}, {2, 2}, {3, 1}, {3, 2}} {
+				j, nb := jn[0], jn[1]
+				synctest.Run(func() {
+					v := quic.NewVerifSM(client, 10, 10)
+					first := smFirst(uni, !client)
+					var gotB []int64
+					h := &smHookCtx{}
+					h.hook = func() <-chan struct{} {
+						v.Recv(first + 4*(j-1))
+						for i := int64(0); i < nb; i++ {
+							id, e := v.Accept(context.Background(), uni)
+							if e != 0 {
+								id = -int64(e)
+							}
+							gotB = append(gotB, id)
+						}
+						return nil // never cancelled
+					}
+					var done atomic.Bool
+					var idA int64
+					var eA int
+					go func() {
+						idA, eA = v.Accept(h, uni)
+						done.Store(true)
+					}()
+					synctest.Wait()
+					in := v.SnapIn(uni)
+					if !done.Load() && in.NextAccept < in.NextOpen && !reported {
+						reported = true
+						fmt.Fprintf(w, "MONFAIL\tstreamsmap/accept/lost-wakeup\tan AcceptStream caller stays blocked although a stream is waiting to be accepted\tclient=%v uni=%v: A=AcceptStream finds no stream; before A reaches its select: one frame opens %d streams (%d..%d) and %d other AcceptStream calls return %v; A blocks in the select although stream %d is open and unaccepted (nextStreamToAccept=%d nextStreamToOpen=%d)\n",
+							client, uni, j, first, first+4*(j-1), nb, gotB, in.NextAccept, in.NextAccept, in.NextOpen)
+					}
+					ok := true
+					for i, id := range gotB {
+						ok = ok && id == first+4*int64(i)
+					}
+					if done.Load() && (eA != 0 || idA != first+4*nb) || !ok {
+						fmt.Fprintf(w, "MONFAIL\tstreamsmap/accept/order\tconcurrent AcceptStream callers got the wrong streams\tclient=%v uni=%v j=%d: A got %d (error %d), the others got %v\n", client, uni, j, idA, eA, gotB)
+					}
+					v.Recv(first + 4*j) // lets A go in any case
+					synctest.Wait()
+					v.Close()
+					synctest.Wait()
+				})
+			}
+		}
+	}
+}
+
 func runStreamsMap(w *bufio.Writer, seed uint64, n int, _ []string) {
 	r := u.NewRng(seed)
 	dist := map[string]int{}
+	smAcceptLostWakeupProbe(w)
+	// RESET_STREAM_AT must only be used when the peer sent the reset_stream_at transport parameter:
+	// a 0-RTT client applies the server's parameters to the streams it already opened.
+	for _, uni := range []bool{false, true} {
+		if rel := quic.VerifSMResetStreamAtProbe(uni, false, false); rel != 0 {
+			fmt.Fprintf(w, "MONFAIL\tstreamsmap/reset-stream-at/not-negotiated\tstream opened during 0-RTT sends RESET_STREAM_AT although the peer did not enable it\tclient, uni=%v: HandleTransportParameters(restored, reset_stream_at absent); Open; Write(10 bytes); HandleTransportParameters(server's, reset_stream_at absent); SetReliableBoundary; CancelWrite => RESET_STREAM frame with ReliableSize %d (0 expected)\n", uni, rel)
+		}
+		if rel := quic.VerifSMResetStreamAtProbe(uni, false, true); rel != 10 {
+			fmt.Fprintf(w, "MONFAIL\tstreamsmap/reset-stream-at/not-enabled\tstream opened during 0-RTT does not use RESET_STREAM_AT although the peer enabled it\tclient, uni=%v: as above with reset_stream_at present in the server's parameters => ReliableSize %d (10 expected)\n", uni, rel)
+		}
+	}
 	for i := 0; i < n; i++ {
 		runSMCase(w, r.Fork(), dist, nil)
 	}
@@ -1328,6 +1427,10 @@ func runStreamsMap(w *bufio.Writer, seed uint64, n int, _ []string) {
 		enum(false, 2, []int{0, 1, 2, 3, 4}, 6)
 		enum(true, 1, []int{0, 1, 2, 3, 4}, 5)
 		enum(true, 2, []int{5, 6, 7, 8, 9, 10}, 5)
+		// both directions together, with explicit AcceptStream callers: <= 2 blocked acceptors,
+		// <= 2 blocked openers, limit 2
+		enum(false, 2, []int{0, 2, 3, 6, 7, 9, 11}, 5)
+		enum(true, 2, []int{0, 2, 3, 6, 9}, 7)
 	}
 	keys := make([]string, 0, len(dist))
 	for k := range dist {
